@@ -23,7 +23,7 @@ def answerPure (ws : List String) : String :=
       | .overflow => "OverflowError"
       | .result b => if b then "true" else "false"
     | _, _ => "bad-op"
-  | "hb" :: i :: t :: rest =>
+  | "hb" :: i :: t :: rt :: rest =>
     let parseIn (ws : List String) : Option Model.Heartbeat.HIn :=
       match ws with
       | ["conn", b, t] => t.toNat?.map (Model.Heartbeat.HIn.conn (b = "1"))
@@ -33,10 +33,11 @@ def answerPure (ws : List String) : String :=
       | ["resetDone", t] => t.toNat?.map .resetDone
       | ["finish", t] => t.toNat?.map .finish
       | _ => none
-    match i.toNat?, t.toNat?, (Spec.Heartbeat.splitSemi rest).mapM parseIn with
-    | some i, some t, some ins =>
-      " ; ".intercalate ((Model.Heartbeat.simulate i t ins).map Spec.Heartbeat.HEv.toText)
-    | _, _, _ => "bad-op"
+    match i.toNat?, t.toNat?, rt.toNat?, (Spec.Heartbeat.splitSemi rest).mapM parseIn with
+    | some i, some t, some rt, some ins =>
+      let h := Model.Heartbeat.simulateFull i t rt ins
+      " ; ".intercalate (h.trace.map Spec.Heartbeat.HEv.toText) ++ " | " ++ " ".intercalate (h.expiries.map toString)
+    | _, _, _, _ => "bad-op"
   | _ => "bad-op"
 
 def answer (st : DState) (ws : List String) : DState × String :=
